@@ -320,3 +320,24 @@ PROPS["C13"] = dict(
     assumptions=["when several inputs are wrong any of their error classes is accepted (the code ranges over a map)"],
     stages=lambda tier: [mc("signature", "MC_C13.tla", "MC_C13_%s.cfg" % tier, min_cases=20000)],
 )
+
+def _c01(tier):
+    st = [mc("programs-2-nodes", "MC_C01.tla", "MC_C01_quick.cfg", min_cases=5000, workers=4),
+          mc("programs-2-nodes-defaulted-input", "MC_C01.tla", "MC_C01_quick_dflt.cfg", min_cases=5000, workers=4),
+          mc("recurrent-pipelines-3-nodes", "MC_C01.tla", "MC_C01_rec.cfg" if tier == "thorough" else "MC_C01_rec_small.cfg",
+             min_cases=100, timeout=1200, workers=4)]
+    if tier == "thorough":
+        st.append(mc("programs-3-nodes", "MC_C01.tla", "MC_C01_thorough.cfg", min_cases=50000, timeout=6000))
+    return st
+
+
+PROPS["C01"] = dict(
+    rule="BFS over a program builder: every well-typed program of <= 2 nodes (3 thorough, without the recurrent templates) over a catalogue "
+         "of 25 node templates (Add/Sub/Mul fan-in, Relu/Abs, three Gemm attribute sets - repeated operator type with different "
+         "attributes -, Transpose, Flatten, Reshape, Concat, Slice with a skipped optional input, Constant, Unsqueeze/Squeeze, GRU/LSTM/RNN "
+         "with arbitrary output names, omitted trailing and skipped middle outputs), with and without a caller value for an input that "
+         "is also an initializer; every recurrent pipeline of <= 3 nodes; every produced tensor is declared as graph output and compared "
+         "exactly with RunSem; each program is marshalled, loaded from bytes and run; non-trivial = every program (all outputs have > 1 element)",
+    assumptions=["programs are generated in topological order by construction (single assignment)"],
+    stages=_c01,
+)
